@@ -12,6 +12,18 @@ import (
 
 // C06 — a Condition holds exactly what it accepted, and validity gates its rendering.
 
+// EnumOp is a user-defined operator enumeration whose ZERO value is a perfectly good operator.
+type EnumOp uint8
+
+func (o EnumOp) String() string  { return []string{"~=", ":>"}[o%2] }
+func (o EnumOp) Context() string { return "enum" }
+
+// UnitOp is a user-defined operator carried by an empty struct.
+type UnitOp struct{}
+
+func (UnitOp) String() string  { return "=~" }
+func (UnitOp) Context() string { return "unit" }
+
 type c06Model struct {
 	kw    string
 	op    stackage.Operator
@@ -34,14 +46,15 @@ func c06KwArgs() []c06Arg {
 func c06OpArgs() []c06Arg {
 	return []c06Arg{{"Eq", stackage.Eq}, {"Ne", stackage.Ne}, {"Ge", stackage.Ge}, {"nil", nil}, {`UserOp{"~=","ctx"}`, UserOp{"~=", "ctx"}},
 		{`UserOp{"","ctx"}`, UserOp{"", "ctx"}}, {`UserOp{"x",""}`, UserOp{"x", ""}}, {"ComparisonOperator(0)", stackage.ComparisonOperator(0)}, {"ComparisonOperator(9)", stackage.ComparisonOperator(9)},
-		{"(*ComparisonOperator)(nil)", (*stackage.ComparisonOperator)(nil)}}
+		{"(*ComparisonOperator)(nil)", (*stackage.ComparisonOperator)(nil)}, {"EnumOp(0)", EnumOp(0)}, {"EnumOp(1)", EnumOp(1)}, {"UnitOp{}", UnitOp{}}}
 }
 
 func c06ExArgs() []c06Arg {
 	a := AStack(stackage.Or().Push("p", "q"))
 	return []c06Arg{{`"v"`, "v"}, {`"w w"`, "w w"}, {`""`, ""}, {"nil", nil}, {"42", 42}, {"3.5", 3.5}, {"true", true},
 		{"Stack", stackage.And().Push("x", "y")}, {"AStack", AStack(stackage.Or().Push("z"))}, {"SStack", SStack(stackage.List().Push(1, 2))}, {"*AStack", &a},
-		{"Condition", stackage.Cond("ik", stackage.Lt, 5)}, {"Name(n)", Name("n")}, {"empty Stack", stackage.Not()}}
+		{"Condition", stackage.Cond("ik", stackage.Lt, 5)}, {"Name(n)", Name("n")}, {"empty Stack", stackage.Not()},
+		{"[]string{a}", []string{"a"}}, {"[]string{b,c}", []string{"b", "c"}}, {"map", map[string]int{"k": 1}}, {"struct{[]int}", struct{ L []int }{[]int{1}}}}
 }
 
 func isStackVal(v any) bool {
@@ -134,6 +147,18 @@ func c06Misc(which int) c06Step {
 		return c06Step{"SetNoPadding()", func(cd *stackage.Condition, m *c06Model) (string, bool) { cd.SetNoPadding(); return "", false }}
 	case 3:
 		return c06Step{"SetParen()", func(cd *stackage.Condition, m *c06Model) (string, bool) { cd.SetParen(); return "", false }}
+	case 6:
+		return c06Step{"SetParen(false)", func(cd *stackage.Condition, m *c06Model) (string, bool) { cd.SetParen(false); return "", false }}
+	case 7:
+		return c06Step{"SetNoPadding(false)", func(cd *stackage.Condition, m *c06Model) (string, bool) { cd.SetNoPadding(false); return "", false }}
+	case 8:
+		return c06Step{"SetNoNesting(false)", func(cd *stackage.Condition, m *c06Model) (string, bool) {
+			cd.SetNoNesting(false)
+			m.nnest = false
+			return "", false
+		}}
+	case 9:
+		return c06Step{"SetParen(true)", func(cd *stackage.Condition, m *c06Model) (string, bool) { cd.SetParen(true); return "", false }}
 	case 4:
 		return c06Step{`SetEncap(")`, func(cd *stackage.Condition, m *c06Model) (string, bool) { cd.SetEncap(`"`); return "", false }}
 	}
@@ -281,7 +306,7 @@ func c06Run(c *core.Ctx, idx int) {
 			case 5, 6, 7:
 				steps = append(steps, c06SetEx(exs[r.Intn(len(exs))]))
 			default:
-				steps = append(steps, c06Misc(r.Intn(6)))
+				steps = append(steps, c06Misc(r.Intn(10)))
 			}
 		}
 		c.Count("histories.random")
